@@ -51,6 +51,14 @@ FSTR_KEEPS_RAW = [False]  # does FStringRules.p_fstring_expr put `is_raw` on the
 LINES_CUT_AT_LB = [True]  # does BaseParser.lines use str.splitlines (then macro text is cut at U+000C, U+2028 …)?
 BANG_NEEDS_LIST = [True]  # does _append_subproc_bang append to `.elts` (then a macro tail after an extend atom crashes the parser)?
 DOCUMENTED = [True, False, False]  # the variant the documentation describes
+# keys of the findings that are still open (set by run()): the generator goes easy on a trigger only while its finding is open
+OPEN_KEYS = {"macro-tail-after-extend-crashes", "word-with-nonidentifier-wordchar-garbled", "whitespace-run-before-untokenizable-char"}
+ALL_OPEN = [None]  # set of every open C04 key once run() has read known_findings.json (None: treat every finding as open)
+
+
+def is_open(key):
+    """failures are only ever attributed to findings that are still open: what looks like a repaired finding is a regression"""
+    return ALL_OPEN[0] is None or key in ALL_OPEN[0]
 LB = [0x0B, 0x0C, 0x1C, 0x1D, 0x1E, 0x85, 0x2028, 0x2029]  # str.splitlines boundaries other than \n \r
 QUOTES = {"s1": "'", "d1": '"', "s3": "'''", "d3": '"""'}
 PY_KEYWORD_WORDS = {"and", "or"}
@@ -348,7 +356,8 @@ def gen_word(rng):
             w = rng.choice(["a", "--key=", "x.", "\u00e9"]) + q + inner + q + rng.choice(["", "d", "=e"])
         else:
             n = rng.randint(1, 9)
-            w = "".join(rng.choice(WORD_SAFE) if rng.random() < 0.85 else rng.choice(WORD_UNI + ["\u2192", "\u20ac", "\xa0", "\u3000", "\\", "#", "?"]) for _ in range(n))
+            uni = WORD_UNI if "word-with-nonidentifier-wordchar-garbled" in OPEN_KEYS else UNI
+            w = "".join(rng.choice(WORD_SAFE) if rng.random() < 0.85 else rng.choice(uni + ["\u2192", "\u20ac", "\xa0", "\u3000", "\\", "#", "?"]) for _ in range(n))
         if word_ok(w) and not (w.endswith("?") and rng.random() < 0.5):
             return w
 
@@ -746,7 +755,8 @@ def build_source(b, cmd, atoms, bang, form, sep=None):
         return any(chr(c) in line for c in LB)
 
     for a in atoms:
-        line += sep or rng.choice([" ", " ", " ", " ", " ", "  ", "\t", "   "])
+        seps = [" ", " ", " ", " ", " ", "  ", "\t", "   "] if "whitespace-run-before-untokenizable-char" in OPEN_KEYS else [" ", " ", "  ", "\t", "   ", " \t "]
+        line += sep or rng.choice(seps)
         if a["k"] == "macroat":
             a["lbb"] = lbb()
         if a["k"] == "adj":
@@ -764,7 +774,7 @@ def build_source(b, cmd, atoms, bang, form, sep=None):
             line += atom_source(b, a)
     bang_lbb = False
     if bang is not None:
-        line += rng.choice(["", " "]) + "!"
+        line += (rng.choice(["", " "]) if sep is None else " ") + "!"
         bang_lbb = lbb()
         line += (" " if bang[:1] in ("=", "(", "[") else "") + bang  # `!=`, `!(`, `![` are single tokens, not a macro `!`
     return line + cl, bang_lbb
@@ -988,33 +998,34 @@ def run_command(ctx, ses, stream, idx, atoms, bang, cmd, form, note=None, sep=No
         argv = observed.get("argv")
         if m_mine == "crash":
             # the faithful model says the parser raises here
-            if observed.get("exception") == "AttributeError" and bang is not None and any(extend_atom(a) for a in atoms):
+            if is_open("macro-tail-after-extend-crashes") and observed.get("exception") == "AttributeError" and bang is not None and any(extend_atom(a) for a in atoms):
                 key = "macro-tail-after-extend-crashes"
         elif argv is not None and argv == m_mine:
             # the faithful model predicts exactly this wrong answer: which modelled mechanism is it?
-            if any(o[0] == "adjacent" and o[2] for o in ors):
+            if is_open("adjacent-inject-reinterpreted") and any(o[0] == "adjacent" and o[2] for o in ors):
                 key = "adjacent-inject-reinterpreted"
-            elif bang_lbb or lb_in_macro or any(a.get("lbb") for a in atoms):
+            elif is_open("macro-text-cut-at-line-boundary") and (bang_lbb or lb_in_macro or any(a.get("lbb") for a in atoms)):
                 key = "macro-text-cut-at-line-boundary"
-            elif not FSTR_KEEPS_RAW[0] and any(a["k"] == "lit" and a["raw"] and a["f"] and has_special(lit_value(a)) for a in atoms):
+            elif is_open("raw-fstring-expanded") and not FSTR_KEEPS_RAW[0] and any(a["k"] == "lit" and a["raw"] and a["f"] and has_special(lit_value(a)) for a in atoms):
                 key = "raw-fstring-expanded"
         if key is None and form == "bare" and (source_has_raw(src, LB) or ("\n" in src and "\\" in src)) and not lb_in_macro:
             # a bare-line finding only when the same command inside ![ ] delivers exactly what is wanted: the argument machinery is
             # right, the execer's line rewriting is at fault
-            if rerun("![", " "):
-                key = "bare-line-splitlines-breaks-literal" if source_has_raw(src, LB) else "bare-line-continuation-inside-literal"
-        if key is None and form == "bare" and any("#" in t[1:] for t in word_texts(atoms) + macro_texts(atoms, bang)) and rerun("![", " "):
+            k2 = "bare-line-splitlines-breaks-literal" if source_has_raw(src, LB) else "bare-line-continuation-inside-literal"
+            if is_open(k2) and rerun("![", " "):
+                key = k2
+        if key is None and is_open("bare-line-hash-inside-word") and form == "bare" and any("#" in t[1:] for t in word_texts(atoms) + macro_texts(atoms, bang)) and rerun("![", " "):
             key = "bare-line-hash-inside-word"
-        if key is None and form == "bare" and re.search(r"[,:=]", first_word_text(atoms)) and rerun("![", " "):
+        if key is None and is_open("bare-line-first-word-python-punctuation") and form == "bare" and re.search(r"[,:=]", first_word_text(atoms)) and rerun("![", " "):
             key = "bare-line-first-word-python-punctuation"
-        if key is None and form == "bare" and src.rstrip(" \t")[-1:].isspace() and rerun("![", " "):
+        if key is None and is_open("bare-line-trailing-unicode-space") and form == "bare" and src.rstrip(" \t")[-1:].isspace() and rerun("![", " "):
             key = "bare-line-trailing-unicode-space"
-        if key is None and form == "bare" and any(re.search(r";|&&|\|\|", t) for t in macro_texts(atoms, bang)) and rerun("![", " "):
+        if key is None and is_open("bare-line-macro-text-chain-token") and form == "bare" and any(re.search(r";|&&|\|\|", t) for t in macro_texts(atoms, bang)) and rerun("![", " "):
             key = "bare-line-macro-text-chain-token"
-        if key is None and ws_errortoken(src) and rerun(form, " "):
+        if key is None and is_open("whitespace-run-before-untokenizable-char") and ws_errortoken(src) and rerun(form, " "):
             # the same command with spaces for the tabs delivers what is wanted, and the tokenizer did turn a tab into an ERRORTOKEN
             key = "whitespace-run-before-untokenizable-char"
-        if key is None:
+        if key is None and is_open("raw-fstring-backslash-handling"):
             import copy
 
             hit, atoms2 = False, []
@@ -1031,7 +1042,7 @@ def run_command(ctx, ses, stream, idx, atoms, bang, cmd, form, note=None, sep=No
                     atoms2.append(a)
             if hit and rerun(form, sep, atoms2):
                 key = "raw-fstring-backslash-handling"
-        if key is None:
+        if key is None and is_open("continuation-comment-strip-inside-literal"):
             import copy
 
             hit, atoms2 = False, []
@@ -1047,7 +1058,7 @@ def run_command(ctx, ses, stream, idx, atoms, bang, cmd, form, note=None, sep=No
                 atoms2.append(a2)
             if hit and rerun(form, sep, atoms2):
                 key = "continuation-comment-strip-inside-literal"
-        if key is None and lexer_unexpected(src) and rerun(form, sep, degarbled_atoms(atoms), None if bang is None else degarble(bang)):
+        if key is None and is_open("word-with-nonidentifier-wordchar-garbled") and lexer_unexpected(src) and rerun(form, sep, degarbled_atoms(atoms), None if bang is None else degarble(bang)):
             # the same command with those characters replaced by a letter has no unexplained failure
             key = "word-with-nonidentifier-wordchar-garbled"
         ctx.spec_failure(case, observed, why, key)
@@ -1253,7 +1264,7 @@ def gen_command(ctx, ses, popen_ok, kinds, max_atoms=5, allow_bang=True):
                 for p in a["parts"]:
                     if p[0] == "m" and rng.random() < 0.3:
                         p[1] = codes(multiline_macro(rng, uncodes(p[1])))
-    if bang is not None and any(extend_atom(a) for a in atoms) and rng.random() < 0.95:
+    if bang is not None and any(extend_atom(a) for a in atoms) and "macro-tail-after-extend-crashes" in OPEN_KEYS and rng.random() < 0.95:
         bang = None  # (a macro tail after an extend atom is the known parser crash: keep a few, not hundreds)
     if bang is None and not atoms:
         atoms = [gen_atom(b, popen_ok, kinds)]
@@ -1410,10 +1421,10 @@ def check_captured(ctx, ses, name, i, text, quoted, edge):
             # (the keyword is one character longer than the operator, so the next token may also be glued on: compare without blanks)
             spellings = ("".join({"&&": "and", "||": "or"}.get(r, r) for r in ref), "".join(ref))  # (`&&` as the lexer's keyword, or as written)
             explained = "".join(g.strip() for g in mid) == spellings[0]
-            if got == ["pre"] + lexed + ["post"] and explained and (edge or "&&" in plain or "||" in plain):
+            if is_open("captured-inject-lexer-split-artifacts") and got == ["pre"] + lexed + ["post"] and explained and (edge or "&&" in plain or "||" in plain):
                 # exactly what the session's own Lexer.split answers, and the only differences are its known artefacts
                 key = "captured-inject-lexer-split-artifacts"
-            elif got == ["pre"] + lexed + ["post"] and any(ws_errortoken(l) for l in text.splitlines()) and \
+            elif is_open("whitespace-run-before-untokenizable-char") and got == ["pre"] + lexed + ["post"] and any(ws_errortoken(l) for l in text.splitlines()) and \
                     "".join("".join(g.split()) for g in mid) in spellings:
                 key = "whitespace-run-before-untokenizable-char"  # the same tokenizer artefact, met by Lexer.split
             ctx.spec_failure(case, {"argv": got, "tokens_of_the_output": want[1:-1]}, "@$() did not deliver the white-space separated tokens of the captured output verbatim", key)
@@ -1595,6 +1606,9 @@ def run(ctx):
         "Popen argv. Tied: generated atom lists -> source -> real Execer.exec (alias and real child). Searched only: lexer word splitting, "
         "bare-line rewriting, OS leg."
     )
+    OPEN_KEYS.clear()
+    OPEN_KEYS.update(f["key"] for f in ctx.known if f.get("status") == "open")
+    ALL_OPEN[0] = set(OPEN_KEYS)
     ses = Session()
     try:
         replay_known(ctx, ses)
@@ -1626,6 +1640,8 @@ def replay(ctx, path):
     if "emit_output" not in c and ("atoms" not in c or "form" not in c):
         print("this replay names a function-level case; re-run ./check C04 with the same seed")
         return common.EXIT_INFRA
+    translate(ctx)  # (the model variant follows the source that is there now)
+    ALL_OPEN[0] = {f["key"] for f in ctx.known if f.get("status") == "open"}
     ses = Session()
     try:
         if "emit_output" in c:
